@@ -502,7 +502,11 @@ impl EventGen for Tag {
             }
             Tag::Leaf(el, tail) => {
                 let mut el = el.clone();
-                context.apply_defaults(&mut el);
+                // (defaults are for elements that are drawn: on a <var> every default
+                // attribute would become a variable, on a <config> a setting)
+                if !matches!(el.name.as_str(), "var" | "config") {
+                    context.apply_defaults(&mut el);
+                }
                 let (ev, bb) = el.generate_events(context)?;
                 (events, bbox) = (ev, bb);
                 if let (Some(tail), false) = (tail, events.is_empty()) {
